@@ -55,10 +55,6 @@ def rule_generator(rep: Report, rid="C11.gen") -> None:
                 rep.ob(rid, "id_generator attributes are bound once, in constructors", f.name == "__init__", file=f.file, line=n.lineno, function=f.qualname,
                        expected="__init__", found=f.name)
     rep.floor("id counter write sites", sites, 2)
-    cls = facts().cls(GQ)
-    extra = sorted(set(cls.methods) - {"__init__", "get_next_id"})
-    rep.ob(rid, "the generator offers no operation other than drawing the next id", not extra, file=cls.module.rel, line=cls.node.lineno, function=cls.qualname,
-           expected=["__init__", "get_next_id"], found=sorted(cls.methods))
     # default generators are created per instance, not shared through a mutable default
     rule_no_mutable_defaults(rep, rid)
 
@@ -168,52 +164,54 @@ def rule_inst(rep: Report, rid="C15.inst") -> None:
                 rep.ob(rid, f"{cls.name} keeps no state across calls: its attributes are only set by the constructor", fi.name == "__init__",
                        file=fi.file, line=n.lineno, function=fi.qualname, expected="written in __init__ only", found=w)
         rep.counts[f"{cls.name} attribute write sites"] = n_sites
-    # stop_at_first_error is configuration: written by callers, not by the parser itself (covered above)
-    pf = pr.parse_frame()
-    kw = dict(file="python/gherkin/parser.py", line=pf.fi.node.lineno, function=pf.fi.qualname)
-    sw = pf.all("self_write")
-    rep.ob(rid, "parse() writes no Parser attribute", not sw, **kw, expected="locals and the per-parse context only", found=[e[4] for e in sw])
+    # parse() itself writes no Parser attribute (normal form: no setattr on self)
+    from ..frame import parse_nf
+    P = parse_nf()
+    kw = dict(file="python/gherkin/parser.py", line=P.fi.node.lineno, function=P.fi.qualname)
+    sw = [n for n, c in P.flat if n[0] in ("setattr", "delattr") and n[1] == P.selft]
+    rep.ob(rid, "parse() writes no Parser attribute", not sw, **kw, expected="locals and the per-parse context only", found=[n[2] for n in sw])
 
 
 def rule_parse_resets(rep: Report, rid="C15.reset") -> None:
-    pf = pr.parse_frame()
-    kw = dict(file="python/gherkin/parser.py", line=pf.fi.node.lineno, function=pf.fi.qualname)
-    li = pf.index("loop")
-    rb = pf.first("reset_builder")
-    rm = pf.all("reset_matcher")
-    first_read = min([i for i, e in enumerate(pf.events) if e[0] in ("read_token", "start_rule")], default=-1)
-    ok = rb is not None and pf.events.index(rb) < first_read and rb[3] == 0
-    rep.ob(rid, "parse() resets the builder unconditionally before anything is started or read", ok, **kw, expected="self.ast_builder.reset() first", found=[e[0] for e in pf.events[:8]])
-    # the matcher that is reset is the one put into the context
-    ctxc = pf.ctx_args
-    mvar = None
-    if ctxc is not None and len(ctxc.args) >= 2:
-        mvar = unparse(ctxc.args[1])
-    ok = len(rm) == 1 and rm[0][4] == mvar and pf.events.index(rm[0]) < first_read and rm[0][3] == 0
+    from ..frame import parse_nf
+    P = parse_nf()
+    I = P.I
+    kw = dict(file="python/gherkin/parser.py", line=P.fi.node.lineno, function=P.fi.qualname)
+    first = min([P.index(n) for n, c in P.ev("read_token") + P.ev("start_rule")], default=-1)
+    rb = P.ev("reset_builder")
+    ok = len(rb) == 1 and rb[0][0][2][0] == ("attr", P.selft, "ast_builder") and P.index(rb[0][0]) < first and not nf.guards_in_ctx(rb[0][1]) and not nf.loops_in_ctx(rb[0][1])
+    rep.ob(rid, "parse() resets the builder unconditionally before anything is started or read", ok, **kw, expected="self.ast_builder.reset() first",
+           found=[n[1] for n, c in P.events][:8])
+    # the matcher used: the context's matcher; every alternative of it is reset before the first read
+    M = P.ctx_attr("token_matcher")
+    alts = []
+    def collect(t):
+        if t is not None and t[0] == "cond":
+            collect(t[2]); collect(t[3])
+        elif t is not None:
+            alts.append(t)
+    collect(M)
+    rm = P.ev("reset_matcher")
+    reset_objs = [n[2][0] for n, c in rm]
+    only_choice_guards = all(all(g[0][0] == "cmp" and g[0][1] == "Is" for g in nf.guards_in_ctx(c)) and not nf.loops_in_ctx(c) and P.index(n) < first for n, c in rm)
+    ok = bool(alts) and sorted(map(str, alts)) == sorted(map(str, reset_objs)) and only_choice_guards
     rep.ob(rid, "parse() resets the token matcher it is going to use, unconditionally, before the first token is read", ok, **kw,
-           expected=f"{mvar}.reset() before read_token", found=[(e[0], e[4]) for e in rm])
-    found = None
-    ok = False
-    if ctxc is not None:
-        pc = facts().cls("gherkin.parser.ParserContext")
-        init = pc.find_method("__init__")
-        pos = init.params()[1:] if init else []
-        argmap = {pos[i]: a for i, a in enumerate(ctxc.args) if i < len(pos)}
-        for k in ctxc.keywords:
-            argmap[k.arg] = k.value
-        e = argmap.get("errors")
-        q = argmap.get("token_queue")
-        found = {"errors": unparse(e) if e is not None else None, "token_queue": unparse(q) if q is not None else None}
-        ok = isinstance(e, ast.List) and not e.elts and isinstance(q, ast.Call) and dotted(q.func) in ("deque", "collections.deque") and not q.args
-    ce = pf.first("ctx")
-    rep.ob(rid, "each parse gets a fresh context: empty error list and empty look-ahead queue", ok and ce is not None and not ce[2] and ce[3] == 0, **kw,
-           expected="ParserContext(scanner, matcher, deque(), [])", found=found)
+           expected="matcher.reset() before read_token, for the matcher stored in the context", found={"context matcher": fmt(M, I) if M else None, "reset": [fmt(x, I) for x in reset_objs]})
+    e, q = P.ctx_attr("errors"), P.ctx_attr("token_queue")
+    eo, qo = (I.obj(e) if e else None), (I.obj(q) if q else None)
+    ok = isinstance(eo, HList) and not eo.segs and eo.origin[0] == P.fi.qualname and isinstance(qo, HList) and not qo.segs and qo.origin[0] == P.fi.qualname and e != q
+    ctx_o = I.obj(P.ctx) if P.ctx else None
+    rep.ob(rid, "each parse gets a fresh context: empty error list and empty look-ahead queue", ok and ctx_o is not None, **kw,
+           expected="ParserContext(scanner, matcher, deque(), [])", found={"errors": fmt(e, I) if e else None, "token_queue": fmt(q, I) if q else None})
     # a default matcher is a new object per parse
-    nm = pf.all("new_matcher")
-    inn = pf.all("if_none")
-    ok = len(nm) == 1 and nm[0][4] == mvar and any(e[4] == mvar for e in inn)
+    ok = False
+    if M is not None and M[0] == "cond" and P.matcher_param is not None:
+        c = M[1]
+        new, given = (M[2], M[3]) if c == ("cmp", "Is", P.matcher_param, NONE) else ((M[3], M[2]) if c == mk_not(("cmp", "Is", P.matcher_param, NONE)) else (None, None))
+        o = I.obj(new) if new else None
+        ok = isinstance(o, HInst) and o.cls.name.endswith("TokenMatcher") and o.origin[0] == P.fi.qualname and given == P.matcher_param
     rep.ob(rid, "without an explicit matcher each parse creates its own TokenMatcher (no matcher shared between parses or parsers)", ok, **kw,
-           expected="if token_matcher is None: token_matcher = TokenMatcher()", found=[(e[0], e[4]) for e in nm + inn])
+           expected="TokenMatcher() if token_matcher is None else token_matcher", found=fmt(M, I) if M else None)
 
 
 DET_BAD_CALLS = {"id", "hash", "random", "randint", "choice", "shuffle", "time", "time_ns", "monotonic", "perf_counter", "now", "today", "uuid4", "uuid1",
